@@ -29,6 +29,7 @@ type poolEntry struct {
 	Committed bool   `json:"committed"` // shipped grammar: output must equal the files next to it
 	Heavy     bool   `json:"heavy"`     // expensive to generate (js): drawn rarely
 	Lang      string `json:"lang"`      // target language of the grammar (go, cc, ts)
+	Name      string `json:"name"`      // language name from the grammar's header
 }
 
 type fileSum struct {
@@ -147,8 +148,31 @@ func (engine) Run(src *sim.Src, log *sim.Log, res *sim.Result) {
 		byLang[l] = append(byLang[l], i)
 	}
 	sort.Strings(langs)
-	shape := src.Pick(40, 35, 10, 15)
+	// grammars of the same language for different back ends (json for go, ts, cc, flex)
+	// share patterns, names and templates: they interact if anything does
+	byName := map[string][]int{}
+	var families []string
+	for _, i := range light {
+		nm := cfg.Pool[i].Name
+		byName[nm] = append(byName[nm], i)
+	}
+	for nm, l := range byName {
+		if len(l) >= 2 {
+			families = append(families, nm)
+		}
+	}
+	sort.Strings(families)
+	shape := src.Pick(35, 30, 10, 15, 10)
+	if shape == 4 && len(families) == 0 {
+		shape = 0
+	}
 	from := light
+	if shape == 4 {
+		from = byName[families[src.Draw(len(families))]]
+		if n < 2 {
+			n = 2 + src.Draw(2)
+		}
+	}
 	if shape == 1 {
 		from = byLang[langs[src.Draw(len(langs))]]
 		if n < 2 {
